@@ -194,7 +194,10 @@ func (timeoutErr) Temporary() bool { return true }
 
 // errorKinds: what a failing random source may report. None of them makes the failure less of one.
 var errorKinds = []error{errInjected, syscall.EINTR, syscall.EAGAIN, fmt.Errorf("read /dev/urandom: %w", syscall.EINTR), timeoutErr{},
-	io.ErrUnexpectedEOF, io.ErrNoProgress, os.ErrDeadlineExceeded, &os.PathError{Op: "read", Path: "/dev/urandom", Err: syscall.EAGAIN}}
+	io.ErrUnexpectedEOF, io.ErrNoProgress, os.ErrDeadlineExceeded, &os.PathError{Op: "read", Path: "/dev/urandom", Err: syscall.EAGAIN},
+	// what a sandbox, a container or an old kernel answers: none of them is a licence to look elsewhere
+	syscall.ENOSYS, syscall.EPERM, &os.SyscallError{Syscall: "getrandom", Err: syscall.ENOSYS}, fmt.Errorf("getrandom: %w", syscall.EPERM),
+	syscall.EACCES, syscall.EIO, syscall.EBADF, syscall.EINVAL, syscall.ENOENT, syscall.EFAULT, os.ErrPermission, os.ErrNotExist, os.ErrClosed, io.ErrClosedPipe}
 
 
 var errInjected = fmt.Errorf("injected read failure")
